@@ -8,7 +8,7 @@ from . import build, sup
 VERIF = os.path.dirname(os.path.dirname(os.path.abspath(__file__)))
 REPLAYS = os.path.join(VERIF, "replays", "C11")
 MAX_SEED_BYTES = 16 << 10
-RUNS_PER_JOB = 400000          # at scale 1.0
+RUNS_PER_JOB = 150000          # at scale 1.0
 MAX_RESTARTS = 40
 
 DICT = ['"<FeatMeshFile"', '"</FeatMeshFile>"', '"version=\\"1\\""', '"mesh=\\"conformal:hypercube:2:2\\""',
@@ -92,7 +92,7 @@ def _one_job(binp, unit, j, runs, seed, corpus, seeds, dictp, artdir, softdir, m
         logp = os.path.join(artdir, "job%d.%d.log" % (j, restarts))
         cmd = [binp, corpus, seeds, "-runs=%d" % left, "-seed=%d" % (seed * 1000 + j * 41 + restarts + 1), "-max_len=%d" % max_len,
                "-dict=" + dictp, "-artifact_prefix=" + os.path.join(artdir, "j%d-" % j), "-timeout=25", "-rss_limit_mb=6000",
-               "-detect_leaks=0", "-print_final_stats=1", "-reload=0", "-verbosity=1", "-use_value_profile=1"]
+               "-detect_leaks=0", "-print_final_stats=1", "-reload=0", "-verbosity=1"]
         with open(logp, "wb") as lf:
             p = subprocess.run(cmd, stdout=lf, stderr=subprocess.STDOUT, env=_env(unit, {"C11_FUZZ_SOFT_DIR": softdir}))
         text = open(logp, "rb").read().decode("utf-8", "replace")
